@@ -101,7 +101,30 @@ class World:
                 self._grng_start = repr(grng.bit_generator.state)
         except Exception:
             self._grng = None
+        # the two ambient process-wide generators (numpy's legacy global state, Python's `random` module) get a state derived
+        # from the run as well: library code that falls back on them replays, and their use can be detected
+        import random as _random
+
+        import numpy as _np
+
+        self._amb_saved = (_np.random.get_state(), _random.getstate())
+        _np.random.seed(int(self.sched.seed) % (1 << 32))
+        _random.seed(int(self.sched.seed))
+        self._amb_start = self._ambient_state()
         return self
+
+    @staticmethod
+    def _ambient_state():
+        import hashlib
+        import random as _random
+
+        import numpy as _np
+
+        st = _np.random.get_state()
+        return hashlib.sha1(st[1].tobytes() + repr(st[2:]).encode() + repr(_random.getstate()).encode()).hexdigest()
+
+    def ambient_rng_used(self):
+        return self._ambient_state() != self._amb_start
 
     def global_rng_used(self):
         return self._grng is not None and repr(self._grng.bit_generator.state) != self._grng_start
@@ -109,10 +132,20 @@ class World:
     def global_rng_mark(self):
         if self._grng is not None:
             self._grng_start = repr(self._grng.bit_generator.state)
+        self._amb_start = self._ambient_state()
 
     def __exit__(self, *exc):
         global _W
         _W = None
+        try:
+            import random as _random
+
+            import numpy as _np
+
+            _np.random.set_state(self._amb_saved[0])
+            _random.setstate(self._amb_saved[1])
+        except Exception:
+            pass
         if self._grng is not None:
             try:
                 self._grng.bit_generator.state = self._grng_saved
